@@ -127,8 +127,7 @@ def tab_cw(ctx):
 def _push_hook(sink, extra=None):
     def on_call(folder, c):
         cc = T.canon(T.callee_of(c))
-        if cc.split("::")[-1] == "push" and len(c["args"]) == 2:
-            sink.append(folder.fold(c["args"][1]))
+        if T.sink_call(folder, c, sink):
             return None
         if extra:
             return extra(folder, c, cc)
@@ -296,68 +295,101 @@ def tab_sets(ctx):
 
 
 def _ascii_enc(ctx, r):
+    """one iteration of the ASCII encoder's loop folded against a model context (no mode switch pending, a given rest of
+    the input): what is pushed and how many characters are consumed - for every single byte and every pair of digits"""
     f = ctx.facts()
     fn = "encodation::ascii::encode"
     need(fn in f.thir, r, fn)
     b = f.thir[fn]
     obs = []
-    # the match on ctx.eat(): Some(ch @ 0..=127) => push(ch+1); Some(ch @ 128..=255) => push(UPPER_SHIFT), push(ch-128+1)
-    m = None
-    for x in T.exprs(b["body"], "Match"):
-        if x.get("source") == "Normal" and any(T.canon(T.callee_of(c)).endswith("::eat") for c in T.calls(x["scrut"])):
-            m = x
-    need(m, r, fn, "(match on ctx.eat())")
-    bad = None
-    for ch in range(256):
-        sink = []
-        val = {"__adt__": "core::option::Option", "__variant__": "Some", "#0": ch, "0": ch}
-        hit = False
-        for arm in m["arms"]:
-            fo = T.Folder(f, on_call=_push_hook(sink), effects=True)
-            try:
-                ok, binds = fo._pat_match(arm["pat"], val)
-            except T.Undecidable:
-                ok = False
-            if ok:
-                fo.env.update(binds)
-                try:
-                    fo.run(arm["body"])
-                except (T.Trap, T.Undecidable) as ex:
-                    sink = str(ex)
-                hit = True
+    loops = [n for n in T.exprs(b["body"], "Loop")]
+    need(len(loops) >= 1, r, fn, "(encoder loop)")
+    lp = loops[0]
+    pre = []
+    # statements of the function body that precede the loop (e.g. a helper closure) are executed first
+    top = b["body"]
+    while top.get("k") == "Block" and not top.get("stmts") and "expr" in top:
+        top = top["expr"]
+    if top.get("k") == "Block":
+        for st in top.get("stmts", []):
+            node = st.get("init") if st["k"] == "Let" else st.get("expr")
+            if node is not None and any(n is lp for n in T.walk(node)):
                 break
-        want = [ch + 1] if ch < 128 else [235, ch - 128 + 1]
-        if (not hit or sink != want) and bad is None:
-            bad = "byte 0x%02X is emitted as %r, ASCII encodation says %r" % (ch, sink, want)
-    obs.append(Ob(r, "ascii:single", bad is None, "ASCII encodation: bytes 0..127 -> value+1, 128..255 -> Upper Shift (235) then value-127%s" % ("" if not bad else ": " + bad), site=T.span_str(m["span"])))
-    # digit pairs: push((a - b'0') * 10 + (b - b'0') + 130)
-    pushes = [c for c in T.calls(b["body"]) if T.canon(T.callee_of(c)).split("::")[-1] == "push" and any(x.get("k") == "Binary" and x.get("op") == "Mul" for x in T.walk(c["args"][1]))]
+            pre.append(st)
+    cname = b["params"][0]["pat"]["name"]
+
+    def iteration(rest):
+        rest = list(rest)
+        sink = []
+        eaten = [0]
+
+        def opt(v):
+            if v is None:
+                return {"__adt__": "core::option::Option", "__variant__": "None"}
+            return {"__adt__": "core::option::Option", "__variant__": "Some", "#0": v, "0": v}
+
+        def on_call(folder, c):
+            cc = T.canon(T.callee_of(c))
+            last = cc.split("::")[-1]
+            if T.sink_call(folder, c, sink):
+                return None
+            if last == "maybe_switch_mode":
+                return {"__adt__": "core::result::Result", "__variant__": "Ok", "#0": False, "0": False}
+            if last == "rest":
+                return list(rest[eaten[0]:])
+            if last == "eat":
+                if eaten[0] < len(rest):
+                    eaten[0] += 1
+                    return opt(rest[eaten[0] - 1])
+                return opt(None)
+            if last == "has_more_characters":
+                return eaten[0] < len(rest)
+            if last == "characters_left":
+                return len(rest) - eaten[0]
+            if last == "peek" and len(c["args"]) == 2:
+                k = folder.fold(c["args"][1])
+                return opt(rest[eaten[0] + k] if eaten[0] + k < len(rest) else None)
+            return NotImplemented
+        fo = T.Folder(f, env={cname: T.Token("ctx")}, on_call=on_call, effects=True)
+        fo.exec_stmts(pre)
+        try:
+            fo.fold(lp["body"])
+            how = "next"
+        except T.ContinueEx:
+            how = "next"
+        except T.BreakEx:
+            how = "break"
+        except T.ReturnEx:
+            how = "return"
+        return sink, eaten[0], how
+
     bad = None
-    if len(pushes) == 1:
-        vars_ = sorted({x["name"] for x in T.exprs(pushes[0]["args"][1], "Var")})
-        if len(vars_) == 2:
-            lets = T.let_env(b["body"])
-            order = [n["name"] for n in T.exprs(pushes[0]["args"][1], "Var")]
-            a_name, b_name = order[0], [n for n in order if n != order[0]][0]
-            for a in range(48, 58):
-                for d in range(48, 58):
-                    try:
-                        v = T.Folder(f, env={a_name: a, b_name: d}).fold(pushes[0]["args"][1])
-                    except (T.Trap, T.Undecidable) as ex:
-                        v = str(ex)
-                    if v != 130 + (a - 48) * 10 + (d - 48) and bad is None:
-                        bad = "digits %c%c -> %r, standard says %d" % (a, d, v, 130 + (a - 48) * 10 + (d - 48))
-            # a is eaten first
-            eats = [st for st in T.walk(b["body"]) if st.get("k") == "Let" and "init" in st and any(T.canon(T.callee_of(c)).endswith("::eat") for c in T.calls(st["init"]))]
-            names = [st["pat"].get("name") for st in eats]
-            if names[:2] != [a_name, b_name] and bad is None:
-                bad = "the tens digit is not the first character eaten (%r)" % (names,)
-        else:
-            bad = "digit pair expression not recognised"
-    else:
-        bad = "digit pair push not found"
-    obs.append(Ob(r, "ascii:digit-pair", bad is None, "two digits d1 d2 -> codeword 130 + 10*d1 + d2%s" % ("" if not bad else ": " + bad)))
-    # two_digits_coming: both must be digits
+    n = 0
+    try:
+        for ch in range(256):
+            for nxt in ([], [65], [48]):
+                if 48 <= ch <= 57 and nxt == [48]:
+                    continue
+                sink, k, how = iteration([ch] + nxt)
+                n += 1
+                want = [ch + 1] if ch < 128 else [235, ch - 128 + 1]
+                if (sink != want or k != 1 or how != "next") and bad is None:
+                    bad = "byte 0x%02X (followed by %r) is emitted as %r consuming %d, ASCII encodation says %r consuming 1" % (ch, nxt, sink, k, want)
+    except (T.Trap, T.Undecidable) as ex:
+        bad = bad or "cannot decide: the encoder loop does not fold (%s)" % ex
+    obs.append(Ob(r, "ascii:single", bad is None, "ASCII encodation: bytes 0..127 -> value+1, 128..255 -> Upper Shift (235) then value-127 (%d cases)%s" % (n, "" if not bad else ": " + bad), site=T.span_str(lp["span"])))
+    bad = None
+    try:
+        for a in range(48, 58):
+            for d in range(48, 58):
+                for tail in ([], [49]):
+                    sink, k, how = iteration([a, d] + tail)
+                    want = [130 + (a - 48) * 10 + (d - 48)]
+                    if (sink != want or k != 2 or how != "next") and bad is None:
+                        bad = "digits %c%c -> %r consuming %d, standard says %r consuming 2" % (a, d, sink, k, want)
+    except (T.Trap, T.Undecidable) as ex:
+        bad = bad or "cannot decide: the encoder loop does not fold (%s)" % ex
+    obs.append(Ob(r, "ascii:digit-pair", bad is None, "two digits d1 d2 -> codeword 130 + 10*d1 + d2, both consumed (first character = tens)%s" % ("" if not bad else ": " + bad)))
     return obs
 
 
